@@ -10,7 +10,7 @@ LOCAL NM == INSTANCE Num64
 LOCAL DB == INSTANCE Dbl
 LOCAL DU == INSTANCE CelDuration
 
-ConvErr == {"fnerr", "overflow"}
+ConvErr == {"fnerr", "overflow", "type"}          \* "an error": which variant reports it is not pinned
 
 IsDigit(c) == c >= 48 /\ c <= 57
 AllDigits(cp) == cp # << >> /\ \A i \in 1..Len(cp) : IsDigit(cp[i])
